@@ -10,10 +10,25 @@ dirs = [(d, "") for d in sorted(glob.glob("/tmp/seed_out/C??/[0-9]"))] + [(d, "r
 for d, rnd in dirs:
     pid = os.path.basename(os.path.dirname(d)); k = rnd + os.path.basename(d)
     ev = os.path.join(d, "eval.txt")
-    if not (os.path.exists(ev) and os.path.exists(os.path.join(d, "patch.diff"))):
+    if not os.path.exists(os.path.join(d, "patch.diff")):
         continue
-    text = open(ev).read()
-    if "patch_applies=yes" not in text:
+    try:
+        meta0 = json.load(open(os.path.join(d, "meta.json")))
+    except Exception:
+        meta0 = {}
+    obsolete = str(meta0.get("status", "")).startswith("obsolete")
+    text = open(ev).read() if os.path.exists(ev) else ""
+    if "patch_applies=yes" not in text and not obsolete:
+        continue
+    if obsolete:
+        dst = os.path.join(out_root, f"{pid}-{k}")
+        os.makedirs(dst, exist_ok=True)
+        for f in ["patch.diff", "demo.patch", "demo_cmd.txt"]:
+            if os.path.exists(os.path.join(d, f)):
+                shutil.copy(os.path.join(d, f), os.path.join(dst, f))
+        meta0["breaks_property"] = pid
+        json.dump(meta0, open(os.path.join(dst, "meta.json"), "w"), indent=1, ensure_ascii=False)
+        rows.append((f"{pid}-{k}", meta0.get("site", ""), meta0.get("summary", "")[:160].replace("\n", " "), "(obsolete on the current tree, see meta.json)", "-", "-"))
         continue
     dst = os.path.join(out_root, f"{pid}-{k}")
     os.makedirs(dst, exist_ok=True)
